@@ -22,7 +22,7 @@ ASSUMPTIONS = ['no byte-identical barcode twice in a generated file; for shipped
                'generated cell indices contain a character outside ACGTNX (column-order sniffing is documented to be ambiguous otherwise) or are plain integers',
                'Hamming distance is defined between strings of equal length only']
 MIN_NONTRIVIAL = {'quick': 5000, 'thorough': 1000000}
-REQUIRED_MONITORS = ['history:touch_before_first_lookup', 'history:first_load_failed_then_retried', 'history:first_load_raised', 'hook:getIndexCorrectedBarcodeAndHammingDistance', 'oracle:assigned', 'oracle:tie', 'oracle:too_far']
+REQUIRED_MONITORS = ['cli:si_runs', 'cli:si_reads_checked', 'history:touch_before_first_lookup', 'history:first_load_failed_then_retried', 'history:first_load_raised', 'hook:getIndexCorrectedBarcodeAndHammingDistance', 'oracle:assigned', 'oracle:tie', 'oracle:too_far']
 EXHAUSTIVE = {'quick': False, 'thorough': False}
 SHARD_TIMEOUT = {'quick': 600, 'thorough': 3600}
 
@@ -141,7 +141,9 @@ def gen_cases(tier, seed):
                 ships.append({'kind': 'shipped', 'dir': d, 'file': os.path.basename(f), 'k': k, 'seed': seed,
                               'n_members': 40 if tier == 'quick' else 400,
                               'n_random': 300 if tier == 'quick' else 3000})
-    return cases + ships
+    # the sequencing indices the user names on the demux.py command line (-si a,b,c -hdi k) go through the same correction
+    clis = [{'kind': 'cli_si', 'j': j, 'seed': seed} for j in range(6 if tier == 'quick' else 150)]
+    return cases + ships + clis
 
 
 class Hook:
@@ -190,7 +192,108 @@ def decide(acc, whitelist, dup_barcodes, q, k, res, ctx):
     return verdict, val
 
 
+def run_cli_si(case):
+    """demux.py -si <indices> -hdi k: every read of a library carrying whitelisted cell barcodes is kept iff its header index has a unique nearest
+    selected index within k, and is then tagged with that index (aA) and its position in the list (aI)"""
+    import subprocess
+    from vlib.common import PY
+    from vlib.sim import fastq as fq
+    from vlib.spec import layouts as LY
+    from vlib.props.c01 import CLI_DRIVER
+    acc = Acc()
+    r = rng(case['seed'], 'C03', 'cli_si', case['j'])
+    name = r.choice(['NLAIII384C8U3', 'CS2C8U6', 'scCHIC384C8U3'])
+    k = r.choice([0, 1, 1, 2])
+    L = 6
+    base = ''.join(r.choice('ACGT') for _ in range(L))
+    chosen = [base]
+    # selected indices at distance 1-2 of each other (ties between them exist) plus unrelated ones
+    while len(chosen) < r.randint(2, 5):
+        src = r.choice(chosen) if r.random() < 0.7 else ''.join(r.choice('ACGT') for _ in range(L))
+        b = list(src)
+        for p_ in r.sample(range(L), r.choice([1, 2, 2])):
+            b[p_] = r.choice([c for c in 'ACGT' if c != b[p_]])
+        cand = ''.join(b)
+        if cand not in chosen:
+            chosen.append(cand)
+    selected = [(b, str(i)) for i, b in enumerate(chosen)]
+    with Scratch('c03cli') as d:
+        wl = fq.load_whitelists(os.path.join(fq.REPO_DEMUX, 'barcodes'))
+        lay = LY.LAYOUTS[name]
+        pairs = []
+        observed = []
+        for b in chosen:
+            observed.append(b)
+            for _ in range(6):
+                x = list(b)
+                for p_ in r.sample(range(L), r.choice([1, 1, 2, 3])):
+                    x[p_] = r.choice([c for c in 'ACGTN' if c != x[p_]])
+                observed.append(''.join(x))
+        # sequences exactly between two selected indices
+        for a_ in chosen:
+            for b_ in chosen:
+                diff = [i for i in range(L) if a_[i] != b_[i]]
+                if a_ < b_ and len(diff) == 2:
+                    observed.append(''.join(b_[i] if i == diff[0] else a_[i] for i in range(L)))
+        observed += [''.join(r.choice('ACGT') for _ in range(L)) for _ in range(10)]
+        for i, idx in enumerate(observed):
+            p_ = fq.make_pair(r, lay, wl.get(lay['alias'], []), 'good', i + 1, 9100 + case['j'], hdr_kind='illumina', index_seq=idx, qmax=41, p_n=0.0,
+                              insert_len=[30, 30], needs=lay.get('needs'))
+            p_['index_observed'] = idx
+            pairs.append(p_)
+        indir = os.path.join(d, 'fastq')
+        os.makedirs(indir)
+        files = [os.path.join(indir, 'LIBSI_S1_L001_R1_001.fastq.gz'), os.path.join(indir, 'LIBSI_S1_L001_R2_001.fastq.gz')]
+        fq.write_fastq(files, pairs)
+        drv = os.path.join(d, 'drv.py')
+        with open(drv, 'w') as f:
+            f.write(CLI_DRIVER)
+        out = os.path.join(d, 'out')
+        p = subprocess.run([PY, drv] + files + ['-use', name, '--y', '-o', out, '-si', ','.join(chosen), '-hdi', str(k), '-hd', '0'],
+                           capture_output=True, text=True, timeout=600, cwd=d)
+        acc.count('cli:si_runs')
+        cfg = {'strategy': name, 'selected_indices': chosen, 'hdi': k}
+        if p.returncode != 0:
+            raise RuntimeError(f'demux.py -si exited {p.returncode}: {p.stderr[-400:]}')
+        got = {}
+        for what in ('demultiplexed', 'rejects'):
+            recs, err = fq.read_fastq_strict(os.path.join(out, 'LIBSI', f'{what}R1.fastq.gz'))
+            if err:
+                raise RuntimeError(f'{what}R1: {err}')
+            for h, *_ in recs:
+                rid = fq.record_id(h)
+                t = fq.parse_out_header(h) if h.startswith('@Is') else {}
+                got[rid[0]] = (what, t.get('aA'), t.get('aI'))
+        for pr in pairs:
+            q = pr['index_observed']
+            verdict, val = oracle(selected, q, k)
+            acc.count('oracle:' + verdict)
+            acc.evals += 1
+            acc.count('cli:si_reads_checked')
+            g = got.get(pr['id'])
+            ctx = dict(cfg, observed=q)
+            if g is None:
+                acc.violate('cli-si-read-vanished', f'-si {chosen} -hdi {k}: the read with index {q} is in neither output', ctx)
+                continue
+            if verdict == 'assigned':
+                idx, bc, dist = val
+                if g[0] != 'demultiplexed' or g[1] != bc or str(g[2]) != str(idx):
+                    mech = 'nearest-not-assigned' if g[0] != 'demultiplexed' else 'wrong-assignment'
+                    acc.violate(mech, f'demux.py -si {",".join(chosen)} -hdi {k}: header index {q} should be corrected to {bc} (position {idx}, distance {dist}) '
+                                      f'but the read is in {g[0]} with aA={g[1]} aI={g[2]}', ctx)
+            elif g[0] == 'demultiplexed':
+                mech = {'tie': 'tie-resolved-arbitrarily', 'too_far': 'assigned-beyond-k', 'none': 'assigned-wrong-length'}[verdict]
+                acc.violate(mech, f'demux.py -si {",".join(chosen)} -hdi {k}: header index {q} is {verdict} (min distance {val}) but the read was kept with '
+                                  f'aA={g[1]} aI={g[2]}', ctx)
+            if verdict in ('assigned', 'tie') or (verdict == 'too_far' and val <= 2):
+                acc.distinct += 1
+        acc.sample = {'cli_si': cfg, 'observed_indices': observed[:12]}
+    return acc
+
+
 def run_case(case):
+    if case.get('kind') == 'cli_si':
+        return run_cli_si(case)
     from singlecellmultiomics.barcodeFileParser import barcodeFileParser as bfp
     acc = Acc()
     hook = Hook(acc)
